@@ -5,7 +5,7 @@ Models: `Rustic/Model/TreeOps.lean` (`blob/tree.rs merge_trees / merge_nodes`, `
 `commands/{copy,merge,rewrite}.rs`, `commands/repair/snapshots.rs`).  All statements quantify over every list
 of trees of any size and depth, every exclusion predicate, every index, every destination.
 
-The copy clause is proved at full strength since the indexer repair c65a201 (`copy_restores_same`); the behaviour of
+The copy clause is proved at full strength since the indexer repair 17c26ec (`copy_restores_same`); the behaviour of
 the code before it is kept as `copyStepUntyped` with the witness `copy_lost_tree_on_id_collision_before_fix`.
 -/
 import Rustic.Lemmas.TreeOps
@@ -225,7 +225,7 @@ theorem repair_partially_lost_file_is_marked (ix : Idx) (root : List RT) (p c : 
 
 /-- (C1) After `copy` the destination holds every tree and every chunk reachable from the copied snapshots
 (blobs already present are not copied again and stay) — for every source repository, including tree/data id
-collisions (the indexer's set is typed since the repair c65a201). -/
+collisions (the indexer's set is typed since the repair 17c26ec). -/
 theorem copy_restores_same (dst : Dest) (roots : List Nat) (reach : List CTree) :
     destComplete (copyStep dst roots reach) roots reach = true :=
   copy_complete dst roots reach
@@ -289,7 +289,7 @@ theorem copy_dropped_finalize_error_saves_unreadable_snapshot :
 /-- DESIGN §7 #7: snapshot 1 = {src → {d → f, g}} where file `g`'s chunk id equals the id of tree `d` (id 3). -/
 def collision : List CTree := [⟨1, [2], []⟩, ⟨2, [3], [3]⟩, ⟨3, [], [4]⟩]
 
-/-- With the untyped id set of the code before c65a201 the copy lost tree 3 (witness replayed on the real code by
+/-- With the untyped id set of the code before 17c26ec the copy lost tree 3 (witness replayed on the real code by
 corpus/C12/copy_collision.ops: it failed before the repair and passes now). -/
 theorem copy_lost_tree_on_id_collision_before_fix :
     destComplete (copyStepUntyped ⟨[], []⟩ [1] collision) [1] collision = false ∧
